@@ -603,6 +603,7 @@ class DFA(fa.FA):
         If the input DFA is partial, then the result is also a partial DFA
         """
 
+        kept_states = frozenset(reachable_states)
         reachable_states = set(reachable_states)
 
         # Per input-symbol backmap (tgt -> origin states)
@@ -614,20 +615,20 @@ class DFA(fa.FA):
         trap_state = None
 
         for start_state, path in transitions.items():
-            if start_state in reachable_states:
+            if start_state in kept_states:
                 for symbol in input_symbols:
                     end_state = path.get(symbol)
-                    if end_state is not None:
-                        symbol_dict = transition_back_map[symbol]
-                        # If statement here needed to ignore certain transitions
-                        # for non-reachable states
-                        if end_state in symbol_dict:
-                            symbol_dict[end_state].append(start_state)
+                    # A transition into a state that was dropped (a dead state)
+                    # behaves exactly like a missing transition
+                    if end_state is not None and end_state in kept_states:
+                        transition_back_map[symbol][end_state].append(start_state)
                     else:
                         # Add trap state if needed
                         if trap_state is None:
                             trap_state = next(
-                                x for x in count(-1, -1) if x not in reachable_states
+                                x
+                                for x in count(-1, -1)
+                                if x not in reachable_states and x not in transitions
                             )
                             for trap_symbol in input_symbols:
                                 transition_back_map[trap_symbol][trap_state] = [
